@@ -962,7 +962,7 @@ func Run(c *ev.Ctx) int {
 		nWorkers = 1
 	}
 	wedgeDone := make(chan struct{})
-	go func() { defer close(wedgeDone); wedgeLane(c) }()
+	go func() { defer close(wedgeDone); wedgeLane(c); policyCostLane(c) }()
 	mainLane(c, x, cases, nWorkers, dead)
 	<-wedgeDone
 	if c.Thorough() && (c.Only == "" || c.Only == "race") {
